@@ -292,7 +292,8 @@ pub fn edited_tx(e: TxEdit, c: &EditCtx) -> Option<Transaction> {
             Some(t)
         }
         TxEdit::TwiceInBlock => {
-            let a = a0?;
+            // a rebroadcast (ATR-typed) output if the attacker owns one, else its first output
+            let a = att_slips.iter().find(|s| s.slip_type == SlipType::ATR).cloned().or(a0)?;
             let amt = a.amount;
             Some(tx_from_inputs(vec![a], vec![out(vic.0, amt)], &att, c.ts + 1, vec![]))
         }
